@@ -1,6 +1,7 @@
 """All harness binaries: (name, sources, build keyword arguments)."""
 TARGETS = [
     ("verdrv", ["verdrv.cpp"], {}),
+    ("verconc", ["verconc.cpp"], {"sessions": 16}),
     ("permdrv", ["permdrv.cpp"], {}),
     ("treedrv", ["treedrv.cpp"], {"sessions": 16, "epoch_time": 5}),
     ("concdrv", ["concdrv.cpp"], {"sessions": 16}),
